@@ -135,10 +135,24 @@ def _gen_genemetrics(rng, tier, i):
     if i >= (500 if tier == "quick" else 10000):
         return None
     arr, owners = _bins(rng, tier, filtered=False)
-    # zero total weight inside a gene makes the weighted depth undefined (0/0): keep gene weights positive
+    # zero *total* weight inside a gene makes the weighted depth undefined (0/0): give such genes one positive weight,
+    # but keep zero-weight bins next to positive ones (the weighted mean must then ignore them)
     import numpy as np
     w = arr.data["weight"].values.copy()
-    w[w == 0] = 0.3
+    for g, rr in _expected_blocks(arr):
+        pass
+    tot = {}
+    for k, (c, gname) in enumerate(zip(arr.data["chromosome"], arr.data["gene"])):
+        tot[(c, gname)] = tot.get((c, gname), 0.0) + w[k]
+    for k, (c, gname) in enumerate(zip(arr.data["chromosome"], arr.data["gene"])):
+        if tot[(c, gname)] == 0:
+            w[k] = 0.3
+    # blocks also contain interleaved ignored bins: make sure no block is weightless
+    arr.data["weight"] = w
+    for g, rr in _expected_blocks(arr):
+        if sum(r.weight for r in rr) == 0:
+            w[:] = np.where(w == 0, 0.3, w)
+            break
     arr.data["weight"] = w
     return dict(arr=arr, threshold=rng.choice([0.0, 0.1, 0.2, 0.5]), min_probes=rng.choice([0, 1, 2, 3, 5]))
 
